@@ -6,7 +6,8 @@ PROP = "C05"
 THEOREMS = ["commit_preimage_inj", "patch_preimage_inj", "commit_binds", "patch_binds", "append_gapfree", "append_only",
             "coordinator_chain_linked", "replay_anchored", "replay_single_field_tamper", "replay_structural_tamper",
             "replay_tip_anchored", "unlinked_replay_any_tamper_refuted", "linked_tip_binds_partial", "replay_truncation",
-            "checkpoint_validated", "diagnostics_unbound_refuted"]
+            "checkpoint_validated", "diagnostics_unbound_refuted", "replay_unlinked_entry_rejected",
+            "genesis_entry_with_parents_accepted_refuted"]
 
 # the model of the code as it is has the coordinate / parent-link check of advance_replay_state switched on
 LC = "true"
@@ -609,9 +610,11 @@ MANIFEST = {
              "verification including the coordinate / parent-link check: replay_single_field_tamper (any alteration of one "
              "retained field of one entry at any position is rejected or yields the original core result), "
              "replay_structural_tamper (swap / duplication / removal / repetition / as-is transplant: whatever still verifies "
-             "is a prefix of the original), replay_anchored and replay_tip_anchored (one trusted tip commit id pins every "
+             "is a prefix of the original), replay_unlinked_entry_rejected (an entry whose parents do not name the previously "
+             "replayed commit - e.g. a re-labelled neighbour - is rejected by full and by incremental runs), replay_anchored and replay_tip_anchored (one trusted tip commit id pins every "
              "committed field of the chain), replay_truncation, checkpoint_validated; unlinked_replay_any_tamper_refuted shows "
-             "what fails without the link check (the defect fixed in 90bd2fa). The model is tied to /repo by generating real "
+             "what fails without the link check (the defect fixed in 90bd2fa); genesis_entry_with_parents_accepted_refuted records "
+             "that tick 0 accepts an entry with parents (outside the quantifier, DESIGN 9.3). The model is tied to /repo by generating real "
              "multi-worldline histories through SchedulerCoordinator::super_tick and feeding EVERY single-field alteration of "
              "every retained entry field at every position (each hash, tick, worldline, parent, head, kind, patch header field, "
              "op field, atom payload byte, slot, receipt entry, output) plus swap / duplication / removal / truncation / "
